@@ -50,5 +50,39 @@ Definition dispatch (cmd : sx) : sx :=
                                x_bool (state_eqb (net_reset sc' st) (initial_state sc'))]) sts'
       | _, _ => bad
       end
+  | L [I 7; sc; items] =>
+      match d_scenario sc with
+      | Some sc' =>
+          match d_list (fun it => match it with
+                        | L [f; st; a; r] =>
+                            do f' <- d_bool f; do st' <- d_state st; do a' <- d_action a; do r' <- d_result r;
+                            Some (x_mat (get_observation sc' st' a' r' f'))
+                        | L [f; st] =>
+                            do f' <- d_bool f; do st' <- d_state st;
+                            Some (x_mat (initial_observation sc' st' f'))
+                        | _ => None end) items with
+          | Some outs => L outs
+          | None => bad
+          end
+      | None => bad
+      end
+  | L [I 8; sc; sts] =>
+      match d_scenario sc, d_list d_state sts with
+      | Some sc', Some sts' =>
+          x_list (fun st => L [x_mat (encode_state (layout_of sc') st); x_list x_bool (action_mask sc' st);
+                               x_bool (wf_state sc' st)]) sts'
+      | _, _ => bad
+      end
+  | L [I 10; docs] =>
+      match docs with
+      | L ds =>
+          L (map (fun dx => match d_yv dx with
+                            | Some doc =>
+                                L [x_opt x_scenario (load doc);
+                                   x_bool (match doc with YMap d => valid d | _ => false end);
+                                   x_bool (match load doc with Some sc => wf_scenario sc | None => false end)]
+                            | None => bad end) ds)
+      | _ => bad
+      end
   | _ => bad
   end.
